@@ -17,6 +17,7 @@ from __future__ import annotations
 import builtins
 import collections
 import types
+from typing import ClassVar
 import copy
 import dataclasses
 import itertools
@@ -62,6 +63,20 @@ class OwnInit(p.Expression):
     def __init__(self, lo, tag="t"):
         object.__setattr__(self, "lo", lo)
         object.__setattr__(self, "tag", tag)
+
+
+@p.expr_dataclass()
+class ClassVarBetween(p.Expression):
+    """a class-level (ClassVar) annotation between two fields"""
+    first: ExpressionT
+    marker: ClassVar[int] = 5
+    second: str
+
+
+@p.expr_dataclass()
+class CmpWithNote(p.Comparison):
+    """decorated subclass of a node type that itself declares ClassVars after its fields"""
+    note: str
 
 
 @p.expr_dataclass()
@@ -127,7 +142,7 @@ class LegacyTwin(LegacyRoot):
     mapper_method = "map_legacy_twin"
 
 
-USER_CLASSES = [DecChild, DecGrand, OwnInit, PlainSub, LegacyOnDec, LegacyOnDecChild, LegacyRoot, LegacySub, LegacyTwin]
+USER_CLASSES = [DecChild, DecGrand, OwnInit, ClassVarBetween, CmpWithNote, PlainSub, LegacyOnDec, LegacyOnDecChild, LegacyRoot, LegacySub, LegacyTwin]
 
 # }}}
 
